@@ -555,6 +555,102 @@ func TestVerif_C02(t *testing.T) {
 			}
 		})
 	}
+	// dense heap capacity family: the 64 KiB heap of a dataset's dense attributes is filled by
+	// three 16000-byte attributes, then a last attribute whose length is swept over the last
+	// bytes the heap accepts (the edge is found by bisection on acceptance): every accepted
+	// attribute must read back byte for byte, also after one more same-size overwrite of another
+	// attribute in a second session
+	{
+		base := []vfOp{{Op: "mkds", Path: "/d", Type: "f64", Dims: []uint64{3}}}
+		for i := 0; i < 9; i++ {
+			base = append(base, vfOp{Op: "attr", Path: "/d", Name: fmt.Sprintf("s%02d", i), Value: "i64"})
+		}
+		for i := 0; i < 3; i++ {
+			base = append(base, vfOp{Op: "attr", Path: "/d", Name: fmt.Sprintf("big%d", i), Value: "str:16000"})
+		}
+		edge := func(n int) vfOp { return vfOp{Op: "attr", Path: "/d", Name: "edge", Value: fmt.Sprintf("str:%d", n)} }
+		accepted := func(n int) bool {
+			ex := vfRun(dir, nil, append(append([]vfOp{}, base...), edge(n)), false)
+			r.Transitions(1)
+			return ex.Errs[len(ex.Errs)-1] == nil
+		}
+		baseOK := true
+		{
+			ex := vfRun(dir, nil, base, false)
+			for _, e := range ex.Errs {
+				if e != nil {
+					baseOK = false
+				}
+			}
+		}
+		lo, hi := 1, 20000 // accepted(lo), !accepted(hi) expected
+		if baseOK && accepted(lo) && !accepted(hi) {
+			for hi-lo > 1 {
+				mid := (lo + hi) / 2
+				if accepted(mid) {
+					lo = mid
+				} else {
+					hi = mid
+				}
+			}
+			r.Set("dense_heap_edge_largest_accepted_last_attribute", lo)
+			var jobs [][]vfOp
+			for n := lo - 8; n <= lo+2; n++ {
+				if n < 1 {
+					continue
+				}
+				h := append(append([]vfOp{}, base...), edge(n))
+				jobs = append(jobs, h, append(append([]vfOp{}, h...), vfOp{Op: "reopen"}, vfOp{Op: "attr", Path: "/d", Name: "s00", Value: "i64b"}))
+			}
+			vkit.ParallelFor(len(jobs), func(i int) {
+				h := jobs[i]
+				ex := vfRun(dir, nil, h, true)
+				r.Transitions(1)
+				r.Case("dense-heap-edge: " + vfOpsString(h[len(base):]))
+				model := map[string]string{}
+				for k, o := range h {
+					if o.Path == "/d" && o.Op == "attr" && ex.Errs[k] == nil {
+						model[o.Name] = o.Value
+					}
+				}
+				detail := map[string]any{"family": "dense-heap-edge", "tail": vfOpsString(h[len(base):]), "largest_accepted": lo}
+				if ex.Closed == nil {
+					detail["open_error"] = fmt.Sprint(ex.ClosedErr)
+					r.Fail("dense-heap-edge/file-unopenable", detail)
+					return
+				}
+				ob := ex.Closed.Get("/d")
+				if ob == nil || ob.AttrErr {
+					r.Fail("dense-heap-edge/attributes-unreadable", detail)
+					return
+				}
+				got := map[string]vfAttr{}
+				for _, a := range ob.Attrs {
+					got[a.Name] = a
+				}
+				bad := ""
+				for n, kind := range model {
+					a, ok := got[n]
+					if !ok {
+						bad = "missing"
+					} else if m := vfAttrMatches(a, kind); m != "" {
+						bad = "value-" + m
+						detail["attribute"] = n
+					}
+				}
+				if len(got) != len(model) && bad == "" {
+					bad = "extra"
+				}
+				if bad != "" {
+					r.Fail("dense-heap-edge/"+bad, detail)
+				} else {
+					r.Outcome("dense-heap-edge-ok")
+				}
+			})
+		} else {
+			r.Set("dense_heap_edge_family", "not constructible on this tree (base rejected or no acceptance edge in [1,20000])")
+		}
+	}
 	r.States(int64(len(states)))
 	r.Sample(map[string]any{"colliding_names": []string{cA, cB}, "hash": structures.VerifNameHash(cA)})
 	r.Sample(map[string]any{"start": "k7 on dataset", "sequence": "attr(/d,a,i32a); attr(/d," + cA + ",s40); delattr(/d,a)"})
